@@ -67,7 +67,8 @@ impl<'a> Walk<'a> {
                 }
             }
             VCell::Continuation(c) => {
-                for s in c.stack().iter() {
+                // only the slots up to the saved stack pointer belong to the continuation
+                for s in c.stack().iter_to_sp() {
                     self.vcell(s);
                 }
                 self.cell(c.ip().0);
